@@ -46,9 +46,15 @@ theorem launchFrom_zipIdx (f : Frame) (i : Nat) (bs : List Sk) :
   | nil => rfl
   | cons b bs ih => simp [launchFrom, List.zipIdx_cons, ih]
 
-theorem launch_eq (f : Frame) (hmc : f.mc = 0) : launch f 0 [] none = launchFrom f 0 f.branches.toList := by
+theorem launch_eq (f : Frame) (hmc : f.mc = 0 ∨ f.branches.toList.length ≤ f.mc) :
+    launch f 0 [] none = launchFrom f 0 f.branches.toList := by
   have hb : batchOf f.mc f.branches.toList.length 0 = List.range' 0 f.branches.toList.length := by
-    simp [batchOf, hmc, List.range_eq_range']
+    rw [batchOf, ← List.range_eq_range', List.filter_eq_self]
+    intro i hi
+    have := List.mem_range.mp hi
+    rcases hmc with h | h
+    · simp [h]
+    · simp; right; omega
   have := filterMap_range' f.branches.toList 0 (fun i b => Act.pubEv (.visit b [{ f with idx := i }] false none))
   simp only [launch, hb, launchFrom_zipIdx]
   simp only [Nat.sub_zero] at this
@@ -167,9 +173,8 @@ theorem flat_launch {N : Nat} {c : Cfg} (h : PInv N c) {m : QEv} (hm : m ∈ c.e
   -- the fan-out state is well-formed
   have hfk := hD.kinds _ hxin
   have hfk' : flatKind (EvKind.visit (Sk.par mc brs rest) [] start none) = true := hk ▸ hfk
-  simp only [flatKind, Sk.flat, Bool.and_eq_true, beq_iff_eq] at hfk'
+  simp only [flatKind, Sk.flat, Bool.and_eq_true, Bool.or_eq_true, beq_iff_eq, decide_eq_true_eq] at hfk'
   obtain ⟨⟨hmc, hseq⟩, hrest⟩ := hfk'
-  subst hmc
   -- a top-level event is alone
   have htop := hS.top _ hxin hstk
   have hev : c.evq = [m] := by
@@ -223,15 +228,15 @@ theorem flat_launch {N : Nat} {c : Cfg} (h : PInv N c) {m : QEv} (hm : m ∈ c.e
     rw [hT] at this; simpa using this.symm
   -- what the handler does
   have hlt : m.id < c.nextId := hD.idlt _ hxin
-  rw [launch_eq _ rfl, List.foldl_append, foldl_launchFrom]
+  rw [launch_eq _ hmc, List.foldl_append, foldl_launchFrom]
   generalize hbs : brs.toList = bs at hne
-  have hbs' : ({ jid := c.nextJ, idx := 0, mc := 0, branches := brs, rest := rest } : Frame).branches.toList = bs := hbs
+  have hbs' : ({ jid := c.nextJ, idx := 0, mc := mc, branches := brs, rest := rest } : Frame).branches.toList = bs := hbs
   simp only [hbs', List.foldl, Cfg.act, Cfg.withVol, hev, hjn, hT, hP, hO, hrq, setJoin, List.filter_nil]
-  generalize hf : ({ jid := c.nextJ, idx := 0, mc := 0, branches := brs, rest := rest } : Frame) = f
+  generalize hf : ({ jid := c.nextJ, idx := 0, mc := mc, branches := brs, rest := rest } : Frame) = f
   have hfj : f.jid = c.nextJ := by rw [← hf]
   have hfb : f.branches.toList = bs := by rw [← hf]; exact hbs
   have hfr : f.rest = rest := by rw [← hf]
-  have hfm : f.mc = 0 := by rw [← hf]
+  have hfm : f.mc = 0 ∨ bs.length ≤ f.mc := by rw [← hf, ← hbs]; exact hmc
   have hfbr : f.branches = brs := by rw [← hf]
   have hmem := mkNews_mem f c.nextId 0 bs
   have hids := mkNews_ids f c.nextId 0 bs
@@ -271,8 +276,13 @@ theorem flat_launch {N : Nat} {c : Cfg} (h : PInv N c) {m : QEv} (hm : m ∈ c.e
       obtain ⟨_, j, b, hkk, _, hj2, hb, _⟩ := hmem e he
       show flatKind e.kind = true
       rw [hkk]
-      simp only [flatKind, Frame.wf, Frame.width, Bool.and_eq_true, decide_eq_true_eq, beq_iff_eq]
-      refine ⟨hseqb b hb, ⟨⟨hfm, ?_⟩, ?_⟩, ?_⟩
+      simp only [flatKind, Frame.wf, Frame.width, Bool.and_eq_true, Bool.or_eq_true, decide_eq_true_eq, beq_iff_eq]
+      refine ⟨hseqb b hb, ⟨⟨?_, ?_⟩, ?_⟩, ?_⟩
+      · rcases hfm with h | h
+        · exact Or.inl h
+        · refine Or.inr (decide_eq_true ?_)
+          show f.branches.toList.length ≤ f.mc
+          rw [hfb]; exact h
       · rw [hfbr]; exact hseq
       · rw [hfr]; exact hrest
       · have : f.branches.toList.length = bs.length := by rw [hfb]
